@@ -115,6 +115,9 @@ def shapes():
                         f'<span{_attrs("y", "e")}>B</span></p><p{_attrs("q", "be")}>C</p></div><div{_attrs("f", "d")}><p{_attrs("r", "")}>D</p></div></body>')
   # animation: set intervals are stored relative to the animated element
   out["set"] = (f'<body><div{_attrs("d", "")}><p{_attrs("p", "bd")}><set{_attrs("s", "bd")} tts:color="red"/><set{_attrs("u", "e")} tts:color="blue"/>A</p></div></body>')
+  # sets in a sequence take their turn like any child; the stored step interval is relative to the animated element
+  out["seq-set"] = (f'<body><div><p{_attrs("p", "b", seq)}><set{_attrs("s", "bd")} tts:color="red"/><set{_attrs("u", "d")} tts:color="blue"/>'
+                    f'<span{_attrs("x", "d")}>A</span></p></div></body>')
   return {k: f'<tt xmlns="{TT_NS}" xmlns:tts="http://www.w3.org/ns/ttml#styling" xml:lang="en">{v}</tt>' for k, v in out.items()}
 
 
